@@ -611,6 +611,9 @@ func (p *printer) join() string {
 	return b.String()
 }
 
+// NeedsSpace reports whether two adjacent tokens need blank space between them to stay two tokens.
+func NeedsSpace(a, c string) bool { return needsSpace(a, c) }
+
 func needsSpace(a, c string) bool {
 	if a == "" || c == "" {
 		return false
@@ -619,8 +622,11 @@ func needsSpace(a, c string) bool {
 	isW := func(ch byte) bool {
 		return ch == '_' || ch >= 'a' && ch <= 'z' || ch >= 'A' && ch <= 'Z' || ch >= '0' && ch <= '9'
 	}
+	isNumeral := a[0] >= '0' && a[0] <= '9' || len(a) > 1 && a[0] == '.' && a[1] >= '0' && a[1] <= '9'
 	switch {
 	case isW(x) && isW(y):
+		return true
+	case isNumeral && isW(y): // "2." followed by a word: the numeral would swallow it
 		return true
 	case x == '-' && y == '-': // would start a comment
 		return true
